@@ -978,11 +978,11 @@ def selftest():
 
 
 SUBS = [
-    Sub("terms", check_terms, strategy=strat_terms, quick=900, thorough=2500, workers_quick=4,
+    Sub("terms", check_terms, strategy=strat_terms, quick=900, thorough=5000, workers_quick=4,
         workers_thorough=16, budget_quick=40, budget_thorough=500),
     Sub("json", check_json, strategy=strat_json, quick=1500, thorough=20000, workers_quick=2,
         workers_thorough=16, budget_quick=25, budget_thorough=400),
-    Sub("taglang", check_taglang, strategy=strat_taglang, quick=800, thorough=15000, workers_quick=2,
+    Sub("taglang", check_taglang, strategy=strat_taglang, quick=800, thorough=8000, workers_quick=2,
         workers_thorough=16, budget_quick=25, budget_thorough=400),
 ]
 
